@@ -62,6 +62,8 @@ Definition n_n (a : aead) : nat := 12%nat.
 
 Definition is_dhkem (k : kem) : bool :=
   match k with P256 | P384 | P521 | X25519 => true | _ => false end.
+Definition is_mlkem (k : kem) : bool :=
+  match k with MLKEM768 | MLKEM1024 => true | _ => false end.
 
 (* ---- ASCII constants ---- *)
 Definition s_hpke_v1 : bytes := [72; 80; 75; 69; 45; 118; 49].            (* "HPKE-v1" *)
